@@ -118,3 +118,26 @@ class Injector(object):
         crashed = self.fired_in_txn if (self.armed and self.armed[1] == 'crash') or self.fired_in_txn is not None else None
         return sum(1 for i, ((_, _how), m) in enumerate(zip(self.txn_log, self._begin_modes))
                    if m == 'w' and not (self.crash_mode and i == self.fired_in_txn))
+
+
+class FailAt(object):
+    """context manager: the n-th statement sent to the engine (counted from 0, BEGIN included) raises `exc`"""
+
+    def __init__(self, engine, n, exc=None):
+        self.engine, self.n, self.k, self.fired = engine, n, 0, False
+        self.exc = exc or db_exc.DBConnectionError('injected: connection lost')
+
+    def _stmt(self, conn, cursor, statement, parameters, context, executemany):
+        k = self.k
+        self.k += 1
+        if k == self.n and not self.fired:
+            self.fired = True
+            raise self.exc
+
+    def __enter__(self):
+        sqlalchemy.event.listen(self.engine, 'before_cursor_execute', self._stmt)
+        return self
+
+    def __exit__(self, *a):
+        sqlalchemy.event.remove(self.engine, 'before_cursor_execute', self._stmt)
+        return False
